@@ -13,7 +13,7 @@ use serde_json::json;
 pub static MONITOR: Monitor = Monitor {
     id: "C09",
     title: "Rich annotations mirror element nesting exactly",
-    rule: "Documents with unique tokens under random nestings of em/i/strong/s/del/code/a[href]/img/pre/span, with CSS colours (inline style= color/background-color with use_doc_css, and class rules through add_css) on inline and block elements, inside paragraphs, divs, lists, quotes, headings and table cells; widths 1..=100; config::rich() with and without do_decorate, unicode_strikeout, raw mode. Expected tag vector of a character = annotations of its ancestors in the harness's oracle DOM, outermost first (per element: Colour, BgColour of its own declaration, then Emphasis/Strong/Strikeout/Code/Link(href)/Image(src)); Preformat(_) must be present exactly inside <pre> (its position is not constrained). Alignment: table-free documents and raw mode are walked in lock-step with the visible stream (so tokens split by wrapping are covered); with side-by-side tables tokens are located by search on a line where they are intact. Pieces without token characters (prefixes, borders, padding, decoration, spaces) must carry a vector that is a prefix of the vector of a token piece on the same or an adjacent line. Finally concat(pieces) per line must equal string_from_read. Distinct/non-trivial = distinct (tag vector) observations of length >= 2 together with distinct outputs; max nesting and split tokens are counted.",
+    rule: "Documents with unique tokens under random nestings of em/i/strong/s/del/code/a[href]/img/pre/span, with CSS colours (inline style= color/background-color with use_doc_css, and class rules through add_css) on inline and block elements, inside paragraphs, divs, lists, quotes, headings and table cells; widths 1..=100; config::rich() with and without do_decorate, unicode_strikeout, raw mode, pad_block_width (padding at the end of a line may carry only the annotations of the block holding that line's text and of the block's ancestors). Expected tag vector of a character = annotations of its ancestors in the harness's oracle DOM, outermost first (per element: Colour, BgColour of its own declaration, then Emphasis/Strong/Strikeout/Code/Link(href)/Image(src)); Preformat(_) must be present exactly inside <pre> (its position is not constrained). Alignment: table-free documents and raw mode are walked in lock-step with the visible stream (so tokens split by wrapping are covered); with side-by-side tables tokens are located by search on a line where they are intact. Pieces without token characters (prefixes, borders, padding, decoration, spaces) must carry a vector that is a prefix of the vector of a token piece on the same or an adjacent line. Finally concat(pieces) per line must equal string_from_read. Distinct/non-trivial = distinct (tag vector) observations of length >= 2 together with distinct outputs; max nesting and split tokens are counted.",
     assumptions: &[
         "<dl>/<dt> and <sup> are kept out of this generator (they add Emphasis / Default annotations the property's list does not mention)",
         "each element has at most one colour and one background declaration (the cascade is C19's subject)",
@@ -176,6 +176,44 @@ fn expected_vector(dom: &ODom, node: odom::Id, sheet: &[(String, (u8, u8, u8))],
     (v, in_pre)
 }
 
+/// Annotations contributed by the innermost block-level ancestor of `node` and
+/// everything above it (what padding, prefixes and borders of that block may carry).
+fn block_chain(dom: &ODom, node: odom::Id, sheet: &[(String, (u8, u8, u8))], css_on: bool) -> Vec<Ann> {
+    const INLINE: [&str; 14] = ["em", "i", "ins", "strong", "s", "del", "code", "a", "img", "span", "sup", "b", "u", "font"];
+    let mut chain: Vec<odom::Id> = dom.ancestors(node);
+    chain.reverse();
+    // cut after the last block-level element
+    let mut last_block = None;
+    for (i, id) in chain.iter().enumerate() {
+        if let Some(n) = dom.html_name(*id) {
+            if !INLINE.contains(&n) {
+                last_block = Some(i);
+            }
+        }
+    }
+    let mut v = Vec::new();
+    if let Some(lb) = last_block {
+        for id in &chain[..=lb] {
+            v.extend(own_annotations(dom, *id, sheet, css_on));
+        }
+    }
+    v
+}
+
+/// All attached nodes in document order.
+fn text_nodes_in_order(dom: &ODom) -> Vec<odom::Id> {
+    let mut v = Vec::new();
+    let mut stack: Vec<odom::Id> = vec![0]; // node 0 is the document
+    while let Some(x) = stack.pop() {
+        // (elements too: the visible text of an <img> is attributed to the element)
+        v.push(x);
+        for &c in dom.children(x).iter().rev() {
+            stack.push(c);
+        }
+    }
+    v
+}
+
 /// The vector without the colours declared on row groups (<thead>/<tbody>/<tfoot>):
 /// the crate merges the rows of all groups into the table and drops the groups' own
 /// style (recorded finding), so this is what it produces when only that goes wrong.
@@ -290,6 +328,46 @@ fn run_case(seed: u64, idx: u64, _tier: Tier, out: &mut CaseOut) {
         });
         out.count("digit_superscripts", added);
     }
+    // zero-width characters right at an annotation boundary: a combining mark as the
+    // first character after an inline element (caf<em>e</em>&#x301;) or as the first
+    // character inside one (ab<em>&#x301;cd</em>) belongs to its own text node
+    if rng.chance(1, 4) {
+        let mut glued = 0u64;
+        ast::for_each_el_mut(&mut doc, &mut |e| {
+            if e.tag == "pre" {
+                return;
+            }
+            let mut i = 0;
+            while i + 1 < e.children.len() {
+                let is_inline_el = |n: &Node| matches!(n, Node::El(x) if matches!(x.tag.as_str(), "em" | "i" | "strong" | "s" | "del" | "code" | "a" | "span") && !x.children.is_empty());
+                if is_inline_el(&e.children[i]) && rng.chance(1, 3) {
+                    // drop a following space and start the next word with a mark
+                    let mut j = i + 1;
+                    if matches!(e.children[j], Node::Space) && j + 1 < e.children.len() {
+                        if let Node::Word(_) = e.children[j + 1] {
+                            e.children.remove(j);
+                        }
+                    }
+                    j = i + 1;
+                    if let Node::Word(w) = &mut e.children[j] {
+                        w.insert(0, *rng.pick(&COMB));
+                        glued += 1;
+                    }
+                } else if let (Node::Word(_), true) = (&e.children[i], is_inline_el(&e.children[i + 1])) {
+                    if rng.chance(1, 4) {
+                        if let Node::El(x) = &mut e.children[i + 1] {
+                            if let Some(Node::Word(w)) = x.children.first_mut() {
+                                w.insert(0, *rng.pick(&COMB));
+                                glued += 1;
+                            }
+                        }
+                    }
+                }
+                i += 1;
+            }
+        });
+        out.count("zero_width_at_annotation_boundary", glued);
+    }
     let coloured = rng.chance(2, 3);
     let sheet_css = if coloured {
         out.inc("docs_with_colour");
@@ -322,6 +400,10 @@ fn run_case(seed: u64, idx: u64, _tier: Tier, out: &mut CaseOut) {
     }
     if with_tables && rng.chance(1, 3) {
         cfg.raw = true;
+    }
+    if rng.chance(1, 4) {
+        cfg.pad = true;
+        out.inc("cfg:pad_block_width");
     }
     // class -> colour map for the oracle
     let sheet: Vec<(String, (u8, u8, u8))> = sheet_css
@@ -373,6 +455,8 @@ fn run_case(seed: u64, idx: u64, _tier: Tier, out: &mut CaseOut) {
         let mut split_tokens = 0u64;
         // per line: vectors of token pieces (for the non-token piece rule)
         let mut line_tok_vecs: Vec<Vec<Vec<Ann>>> = vec![Vec::new(); lines.len()];
+        // per line: the text nodes whose characters were aligned on it (sequential mode)
+        let mut line_nodes: Vec<Vec<odom::Id>> = vec![Vec::new(); lines.len()];
         let mut nontoken: Vec<(usize, Vec<Ann>, String)> = Vec::new();
         for (ln, line) in lines.iter().enumerate() {
             for piece in line {
@@ -467,6 +551,9 @@ fn run_case(seed: u64, idx: u64, _tier: Tier, out: &mut CaseOut) {
                     if Some(v.node) != prev_node {
                         prev_node = Some(v.node);
                     }
+                    if line_nodes[ln].last() != Some(&v.node) {
+                        line_nodes[ln].push(v.node);
+                    }
                 }
             }
             if sequential && cursor < vstream.len() && cursor > 0 {
@@ -540,6 +627,58 @@ fn run_case(seed: u64, idx: u64, _tier: Tier, out: &mut CaseOut) {
                 i = j;
             }
         }
+        // padding (pad_block_width): the spaces that fill a line up to the block width
+        // belong to the block, not to the inline elements on the line - they may carry
+        // the annotations of the block's ancestors (and the block itself) only
+        if cfg.pad && sequential {
+            let order = text_nodes_in_order(&dom);
+            for (ln, line) in lines.iter().enumerate() {
+                let Some(Piece::Str { s, tags }) = line.iter().rev().find(|p| matches!(p, Piece::Str { .. })) else {
+                    continue;
+                };
+                if s.is_empty() || !s.chars().all(|c| c == ' ') || line_nodes[ln].is_empty() {
+                    continue;
+                }
+                let (tv, _) = strip_pre(tags);
+                out.inc("padding_pieces_checked");
+                let mut ok = line_nodes[ln].iter().any(|&n| is_prefix(&tv, &block_chain(&dom, n, &sheet, coloured)));
+                if !ok {
+                    // The line may end where the source has collapsible white space inside an
+                    // inline element (<i>word </i>): that space is never written, but the
+                    // padding starts in its column and takes its annotations.  Accept the
+                    // vector of any white-space-bearing text node between the last character
+                    // of this line and the first character of the next one.
+                    let last = *line_nodes[ln].last().unwrap();
+                    let next = line_nodes.iter().skip(ln + 1).find_map(|v| v.first().copied());
+                    let a = order.iter().position(|&x| x == last);
+                    let b = next.and_then(|n| order.iter().position(|&x| x == n)).unwrap_or(order.len().saturating_sub(1));
+                    if let Some(a) = a {
+                        for &tn in order.iter().take(b.max(a) + 1).skip(a) {
+                            if let Kind::Text(t) = dom.kind(tn) {
+                                if t.chars().any(|c| c.is_whitespace()) && expected_vector(&dom, tn, &sheet, coloured).0 == tv {
+                                    ok = true;
+                                    out.inc("padding_after_pending_space_in_inline");
+                                    break;
+                                }
+                            }
+                        }
+                    }
+                }
+                if !ok {
+                    out.violate(
+                        "padding-carries-inline-annotation",
+                        format!(
+                            "the padding at the end of line {} carries {:?}; the blocks holding the text of that line give at most {:?}",
+                            ln,
+                            tv,
+                            line_nodes[ln].iter().map(|&n| block_chain(&dom, n, &sheet, coloured)).max_by_key(|v| v.len()).unwrap_or_default()
+                        ),
+                        witness(&input, w, &cfg, json!({"line": format!("{:?}", line)})),
+                    );
+                    return;
+                }
+            }
+        }
         // non-token pieces: prefix of a neighbouring token vector
         for (ln, tv, s) in &nontoken {
             let mut cands: Vec<&Vec<Ann>> = Vec::new();
@@ -566,6 +705,27 @@ fn run_case(seed: u64, idx: u64, _tier: Tier, out: &mut CaseOut) {
                                 break;
                             }
                         }
+                    }
+                }
+                if !any {
+                    // the recorded row-group finding seen on a border: the piece carries the
+                    // chain of an element minus the colours of its <thead>/<tbody>/<tfoot>
+                    let mut rowgroup = false;
+                    for (id, n) in dom.nodes.iter().enumerate() {
+                        if matches!(n.kind, Kind::Element { .. }) && dom.attached(id)
+                            && is_prefix(tv, &expected_without_row_group_colours(&dom, id, &sheet, coloured))
+                        {
+                            rowgroup = true;
+                            break;
+                        }
+                    }
+                    if rowgroup {
+                        out.violate(
+                            "tag-vector:row-group-colour-not-applied",
+                            format!("piece {:?} on line {} carries {:?}: the chain of an element without the colour of its row group", s, ln, tv),
+                            witness(&input, w, &cfg, json!({"line": format!("{:?}", lines[*ln])})),
+                        );
+                        return;
                     }
                 }
                 if !any {
